@@ -365,7 +365,8 @@ def duplicates(codebase: CodeBase, stream: TextIO = sys.stdout):
     stream: TextIO, default: sys.stdout
         The stream to write the report to.
     """
-    confirmed_matches = find_duplicates(codebase)
+    # Sort the groups and their members: sets of paths iterate in hash order.
+    confirmed_matches = sorted(sorted(m) for m in find_duplicates(codebase))
 
     print("", file=stream)
     print(_heading("Duplicates", stream), file=stream)
